@@ -172,31 +172,41 @@ Definition regkey_at (cx : ctx) (rid : option string) : option N :=
 Definition revocable (cx : ctx) (id : identifier) : bool :=
   match assoc (id_creddef id) (cx_creddefs cx) with Some cd => match cd_revkey cd with Some _ => true | None => false end | None => false end.
 
+Fixpoint indexed {A} (i : Z) (l : list A) : list (Z * A) :=
+  match l with [] => [] | x :: r => (i, x) :: indexed (i + 1) r end.
+
 (* per sub-proof: the interval demands the property attributes to it. The W3C form has no referent
-   map: with a single credential every referent is served by it; with several, [over = false]
-   attributes only the request-wide interval (what is certainly demanded: used where acceptance
-   must imply something) and [over = true] attributes every referent's interval to every
-   credential (what is possibly demanded: used where meeting all demands must imply acceptance) *)
+   map. Where acceptance must imply something ([over = false]) a referent's demand is attributed
+   to credential i only if i is the ONLY presented credential that could serve it (reveals or
+   holds the attribute / proves the predicate) — then it must have served it. Where meeting all
+   demands must imply acceptance ([over = true]) every referent's demand is attributed to every
+   credential. *)
+Definition could_serve_attr (n : string) (sp : subproof) : bool := reveals sp n || holds_attr sp n.
+Definition only_server (could : subproof -> bool) (sps : list subproof) (i : Z) : bool :=
+  forallb (fun js => (fst js =? i) || negb (could (snd js))) (indexed 0 sps)
+  && match nthZ sps i with Some sp => could sp | None => false end.
+Definition w3c_must_locals (R : request) (sps : list subproof) (i : Z) : list (option interval) :=
+  flat_map (fun x => flat_map (fun n => if only_server (could_serve_attr n) sps i then [ai_nr (snd x)] else []) (names_of (snd x))) (rq_attrs R)
+  ++ flat_map (fun x => if only_server (fun sp => proves_pred sp (snd x)) sps i then [pi_nr (snd x)] else []) (rq_preds R).
 Definition sub_locals_gen (over : bool) (c : vcase) (i : Z) : list (option interval) :=
   match c with
   | CLegacy R P _ => demands_legacy R P i
   | CW3C R P _ =>
-      let all := map (fun x => ai_nr (snd x)) (rq_attrs R) ++ map (fun x => pi_nr (snd x)) (rq_preds R) in
-      match wp_creds P with
-      | [_] => all
-      | _ => if over then all else []
-      end
+      if over then map (fun x => ai_nr (snd x)) (rq_attrs R) ++ map (fun x => pi_nr (snd x)) (rq_preds R)
+      else w3c_must_locals R (map snd (case_subs c)) i
   end.
 Definition sub_locals := sub_locals_gen false.
 Definition sub_locals_over := sub_locals_gen true.
-Fixpoint indexed {A} (i : Z) (l : list A) : list (Z * A) :=
-  match l with [] => [] | x :: r => (i, x) :: indexed (i + 1) r end.
-
+(* does some interval apply to sub-proof i?  legacy: a credential without local interval is under the
+   request-wide one; W3C: only through a referent *)
+Definition applies_gen (over : bool) (c : vcase) (i : Z) : bool :=
+  some_interval_applies (case_request c) (sub_locals_gen over c i)
+  && match c with CLegacy _ _ _ => true | CW3C _ _ _ => negb (match sub_locals_gen over c i with [] => true | _ => false end) end.
 Definition ok_C02 (c : vcase) (o : outcome) : bool :=
   negb (is_accept o) ||
   forallb (fun '(i, (id, sp)) =>
              let R := case_request c in let cx := case_ctx c in
-             negb (revocable cx id) || negb (some_interval_applies R (sub_locals c i))
+             negb (revocable cx id) || negb (applies_gen false c i)
              || match sp_nrp sp, id_ts id, list_at cx (id_revreg id) (id_ts id), regkey_at cx (id_revreg id), tightest R (sub_locals c i) with
                 | Some n, Some t, Some acc, Some rk, Some iv =>
                     nrp_valid n && N.eqb (nrp_acc n) acc && N.eqb (nrp_regkey n) rk
@@ -212,7 +222,7 @@ Definition ok_C08 (c : vcase) (base : bool) (o : outcome) : bool :=
   (* outside the tightest window, or an interval applies and there is no timestamp / no list: reject *)
   (negb (is_accept o) ||
    forallb (fun '(i, (id, sp)) =>
-              negb (revocable cx id) ||
+              negb (revocable cx id) || negb (applies_gen false c i) ||
               match tightest R (sub_locals c i) with
               | None => true
               | Some iv => match id_ts id, list_at cx (id_revreg id) (id_ts id) with
@@ -224,7 +234,7 @@ Definition ok_C08 (c : vcase) (base : bool) (o : outcome) : bool :=
   (negb base || is_accept o ||
    negb (forallb (fun '(i, (id, sp)) =>
                     negb (revocable cx id) ||
-                    negb (some_interval_applies R (sub_locals_over c i)) ||
+                    negb (applies_gen true c i) ||
                     match id_ts id, list_at cx (id_revreg id) (id_ts id), sp_nrp sp, regkey_at cx (id_revreg id) with
                     | Some t, Some acc, Some n, Some rk =>
                         all_demands_met R cx (id_revreg id) (sub_locals_over c i) t
